@@ -46,6 +46,19 @@ def run(ctx):
         ds = rrgen.gen_dtstart(rng, allday=False if zoned else None, lo=1975 if zoned else 1902, hi=2030 if zoned else 2090)
         r = rrgen.gen_rule(rng, ds, big_times=(i % 12 == 11))
         ext, cls = gen_ext(rng, r, ds)
+        if i % 9 == 4 and not zoned:
+            # shifted dates of neighbouring periods that meet on one day: month ends and starts under business-day shifts
+            r = rfc5545.Rule(rng.choice(["MONTHLY", "MONTHLY", "YEARLY"]))
+            r.bymonthday = sorted(set(rng.sample([1, 2, 3, -1, -2, -3, 28, 29, 30, 31], rng.randint(2, 4))))
+            if r.freq == "YEARLY":
+                m0 = rng.randint(1, 11)
+                r.bymonth = [m0, m0 + 1]
+            if ds[3] is not None and rng.random() < 0.4:
+                r.byhour = sorted(set(rng.sample(range(24), 2)))
+            if rng.random() < 0.3:
+                r.count = rng.choice([10, 100, 400])
+            ext = ";SHIFT=" + rng.choice(["0B", "1B", "-0B", "-1B", "2B", "-2B", "1B+", "-1B-", "3B", "1,0B", "-1,-0B"])
+            cls = {"shift", "meeting-shift"}
         zone = rng.choice(ZONES) if zoned else None
         if "hijri" in cls:
             # a DTSTART the Hijri table covers, rule parts that exist on that scale
